@@ -18,10 +18,19 @@ RULE = ("random graphs x caller metadata with: property entries carrying unit/na
         "display_hints, sphere, ellipsoid, track_node_props), axis type/unit/scale/scaled_unit/offset; structure validation on and off; "
         "entry points write_arrays (tied to the Coq model through the store dump), write_dicts and geff.write through networkx / rustworkx with "
         "axis_* override lists (each absent or with per-axis None entries; oracle only); zarr 2/3; "
+        "FULL-metadata cases (entry 'full'): the caller's complete GeffMetadata keyword arguments -- geff_version (absent / several forms), every "
+        "axis field incl. int-valued min/max/offset, wrong and stale property entries with unit/name/description, sphere, ellipsoid, "
+        "track_node_props, related_objects, display_hints, nested extra with floats -- x random graph x validation on/off, with NaN / +-inf "
+        "coordinates, int64 coordinates beyond 2^53, masked axis properties, empty graphs (back-fill); the COMPLETE attrs['geff'] document is "
+        "compared in Coq with the full pydantic pipeline (MetaBridge.stored_doc) field by field; 6 hand-written corner cases; "
         "non-trivial = at least one property written; distinct by structural input")
 EXHAUSTIVE_BLOCKS = []
 ASSUMPTIONS = c01.ASSUMPTIONS + ["axis coordinates are generated exactly representable (|x| < 2^40, multiples of 2^-10) so min/max are exact",
-                                 "write_dicts and the backend writers reach the store through write_arrays; they are covered by the oracle only here (C03 models them)"]
+                                 "write_dicts and the backend writers reach the store through write_arrays; they are covered by the oracle only here (C03 models them)",
+                                 "full-metadata cases: caller objects are built by GeffMetadata(**kwargs) from JSON-like values (C07's construction model); floats in "
+                                 "metadata are multiples of 2^-10; the stored document is read through the zarr API and compared up to member order; a fresh "
+                                 "MemoryStore only (other stores / pre-states are covered by the C01-style cases); the exception class of a failing write is "
+                                 "taken from the store model run on the abstraction (MetaBridge.abs with the trivial interning)"]
 
 UNITS = ["micrometer", "second", "pixel", None]
 
@@ -73,6 +82,11 @@ def generate(rng: random.Random, tier: str):
         yield dict_case(rng)
     for i in range(120 if tier == "quick" else 1500):
         yield backend_case(rng)
+    # the caller's FULL metadata object against the full pipeline (MetaBridge.stored_doc), field by field
+    for c in full_fixed_cases():
+        yield c
+    for i in range(350 if tier == "quick" else 4000):
+        yield full_case(rng)
 
 
 def backend_case(rng):
@@ -212,9 +226,243 @@ def metadata_diff(view, caller_md: dict) -> str | None:
     return None
 
 
+# --------------------------------------------------------------------------
+# full-metadata cases: the caller's complete GeffMetadata keyword arguments + the graph; the COMPLETE stored document is compared
+# with MetaBridge.stored_doc (full pydantic pipeline) evaluated in Coq
+# --------------------------------------------------------------------------
+VERSIONS = [None, None, "0.9", "1.3", "1.0.0.dev1", "2.3.4+local", "0.1.0", "10.20"]
+
+
+def _f(v):
+    from harness import c07 as mj
+
+    return mj.F(v) if isinstance(v, float) else v
+
+
+def _fdeep(v):
+    if isinstance(v, dict):
+        return {k: _fdeep(x) for k, x in v.items()}
+    if isinstance(v, list):
+        return [_fdeep(x) for x in v]
+    return _f(v)
+
+
+def full_case(rng):
+    g = gg.rand_graph(rng)
+    md0, stale = rich_md(rng, g)
+    n = g["nids"]["shape"][0]
+    kw = {"directed": md0["directed"]}
+    v = rng.choice(VERSIONS)
+    if v is not None:
+        kw["geff_version"] = v
+    special = None
+    masked = False
+    if md0.get("axes") is not None:
+        axes = []
+        for ax in md0["axes"]:
+            a = dict(ax)
+            if "type" not in a and rng.random() < 0.25:
+                a["type"] = "channel"
+            if "min" not in a and rng.random() < 0.15:
+                a["min"], a["max"] = rng.choice([(5, 5), (-2.5, 1.0), (0, 1)])  # ints are coerced to float by the field
+            axes.append(_fdeep(a))
+        kw["axes"] = axes
+        # coordinates outside the comfortable range: NaN / inf (open finding nan-axis-bound), integers beyond 2^53, a masked axis
+        if n > 0 and rng.random() < 0.5:
+            nm = rng.choice(md0["axes"])["name"]
+            arr = g["nprops"][nm]["values"]
+            r = rng.random()
+            if arr["dtype"].startswith("float") and r < 0.4:
+                special = rng.choice(["nan", "inf", "-inf"])
+                arr["data"][rng.randrange(n)] = special
+            elif arr["dtype"] == "int64" and r < 0.7:
+                special = "big"
+                arr["data"][rng.randrange(n)] = rng.choice([2 ** 53 + 1, -(2 ** 60) - 3, 2 ** 62 + 2 ** 8 + 1, 2 ** 53 + 3])
+            elif n >= 2:
+                special = "masked"
+                masked = True
+                keep = rng.randrange(n)
+                g["nprops"][nm]["missing"] = {"dtype": "bool", "shape": [n], "data": [i != keep and rng.random() < 0.6 for i in range(n)]}
+    kw["node_props_metadata"] = md0["nprops_md"]
+    kw["edge_props_metadata"] = md0["eprops_md"]
+    names = list((g["nprops"] or {}).keys())
+    for k in ("sphere", "track_node_props", "related_objects", "display_hints"):
+        if md0.get(k) is not None:
+            kw[k] = md0[k]
+    if names and rng.random() < 0.2:
+        kw["ellipsoid"] = rng.choice(names)
+    if names and "track_node_props" not in kw and rng.random() < 0.25:
+        kw["track_node_props"] = {"tracklet": rng.choice(names), **({"lineage": rng.choice(names)} if rng.random() < 0.5 else {})}
+    if md0.get("extra") is not None or rng.random() < 0.3:
+        ex = dict(md0.get("extra") or {})
+        if rng.random() < 0.5:
+            ex["scale"] = 0.5
+            ex["deep"] = {"l": [1.5, None, True, "s"], "axes": "not a field"}
+        kw["extra"] = _fdeep(ex)
+    validate = rng.random() < (0.5 if stale else 0.85)
+    if masked:
+        validate = rng.random() < 0.25  # structural validation rejects a masked axis: mostly switched off to see the stored range
+    return {"kind": "full", "entry": "full", "wf": True, "stale": stale, "special": special, "fmt": rng.choice([2, 3]), "validate": validate,
+            "kw": kw, **{k: g[k] for k in ("nids", "eids", "nprops", "eprops")}}
+
+
+def full_fixed_cases():
+    """Hand-written corners: every optional field at once; no axes but track properties; an empty graph with axes (back-fill); a caller
+    entry for a property on nodes AND edges; a version with a local part."""
+    from harness import c07 as mj
+
+    F = mj.F
+    ids = {"dtype": "uint16", "shape": [3], "data": [7, 65535, 0]}
+    eids = {"dtype": "uint16", "shape": [2, 2], "data": [7, 0, 0, 65535]}
+
+    def arr(dt, data, shape=None):
+        return {"dtype": dt, "shape": shape or [len(data)], "data": data}
+
+    nprops = {"t": {"values": arr("int32", [2, 0, 9]), "missing": None}, "x": {"values": arr("float32", [1.5, -0.25, 8.0]), "missing": None},
+              "r": {"values": arr("float64", [1.0, 2.0, 0.5]), "missing": None}, "lab": {"values": arr("str", ["a", "", "ü"]), "missing": None},
+              "score": {"values": arr("float16", [0.5, 1.0, 2.0]), "missing": {"dtype": "bool", "shape": [3], "data": [False, True, False]}}}
+    eprops = {"score": {"values": arr("uint8", [1, 2]), "missing": None}}
+    pm = lambda i, dt, **k: {"identifier": i, "dtype": dt, **k}  # noqa: E731
+    kw_all = {"geff_version": "0.9.1+local", "directed": True,
+              "axes": [{"name": "t", "type": "time", "unit": "second", "min": 100, "max": F(200.5), "scale": F(0.5), "scaled_unit": "minute", "offset": -3},
+                       {"name": "x", "type": "space", "unit": "micrometer", "offset": F(2.25)}],
+              "node_props_metadata": {"t": pm("t", "float64", unit="second", name="time", description="frame"),
+                                      "score": pm("score", "int8", varlength=True, description="quality")},
+              "edge_props_metadata": {"score": pm("score", "str", unit="a.u.", name="edge score")},
+              "sphere": "r", "ellipsoid": "lab", "track_node_props": {"lineage": "t", "tracklet": "lab"},
+              "related_objects": [{"type": "labels", "path": "../seg", "label_prop": "lab"}, {"type": "image", "path": "../raw"}],
+              "display_hints": {"display_horizontal": "x", "display_vertical": "t", "display_time": "t"},
+              "extra": {"k": 3, "f": F(0.5), "deep": {"l": [1, None, "ü", F(-1.5)], "node_props_metadata": {}}}}
+    base = {"kind": "full", "entry": "full", "wf": True, "stale": False, "special": None, "validate": True, "nids": ids, "eids": eids}
+    for fmt in (2, 3):
+        yield {**base, "fmt": fmt, "kw": copy.deepcopy(kw_all), "nprops": copy.deepcopy(nprops), "eprops": copy.deepcopy(eprops)}
+        kw2 = {k: copy.deepcopy(v) for k, v in kw_all.items() if k not in ("axes", "display_hints", "geff_version")}
+        yield {**base, "fmt": fmt, "kw": kw2, "nprops": copy.deepcopy(nprops), "eprops": copy.deepcopy(eprops)}
+        kw3 = {"directed": False, "axes": [{"name": "x", "min": 1, "max": 2, "unit": "pixel"}, {"name": "new", "type": "space"}],
+               "node_props_metadata": {}, "edge_props_metadata": {}, "track_node_props": {"lineage": "x"}}
+        yield {**base, "fmt": fmt, "kw": kw3, "nids": arr("uint16", []), "eids": {"dtype": "uint16", "shape": [0, 2], "data": []},
+               "nprops": {"x": {"values": arr("float64", []), "missing": None}}, "eprops": {}}
+
+
+def caller_of(c):
+    """The caller's metadata in the shape metadata_diff compares with (plain python values)."""
+    from harness import c07 as mj
+
+    kw = mj.to_py(c["kw"])
+    out = {"directed": kw["directed"], "axes": kw.get("axes"), "nprops_md": kw["node_props_metadata"], "eprops_md": kw["edge_props_metadata"]}
+    for k in ("extra", "related_objects", "display_hints", "sphere", "ellipsoid", "track_node_props"):
+        out[k] = kw.get(k)
+    return out
+
+
+def nan_coordinate(c) -> bool:
+    """Does a declared axis have a NaN among its non-missing coordinates?"""
+    for ax in c["kw"].get("axes") or []:
+        p = (c["nprops"] or {}).get(ax["name"])
+        if p is None or "vlen" in p["values"]:
+            continue
+        miss = p["missing"]["data"] if p["missing"] is not None else None
+        for i, v in enumerate(p["values"]["data"]):
+            if v == "nan" and not (miss is not None and i < len(miss) and miss[i]):
+                return True
+    return False
+
+
+def run_full(c):
+    import zarr
+    from zarr.storage import MemoryStore
+
+    from geff.core_io import write_arrays
+    from geff_spec import GeffMetadata
+    from geff_spec._schema import GEFF_VERSION
+    from harness import c07 as mj
+    from harness.common import HarnessError, cbool, cstr
+    from harness.storelib import Interner
+
+    it = Interner()
+    nids, eids = gg.to_np(c["nids"]), gg.to_np(c["eids"])
+    nprops, eprops = gg.props_to_np(c["nprops"]), gg.props_to_np(c["eprops"])
+    obs = {}
+    coq_in = None
+    printable = all(gg.printable_np(p["values"]) for ps in (nprops, eprops) if ps for p in ps.values()) and \
+        all("/" not in k and not k.startswith(".") and k != "zarr.json" for ps in (nprops, eprops) if ps for k in ps)
+    if printable:
+        try:  # printed before the call: the writer may touch its arguments
+            coq_in = f"IFull {cstr(GEFF_VERSION)} {mj.to_jv(c['kw'])} {gg.c_wgraph(nids, eids, nprops, eprops, it)} {cbool(c['validate'])}"
+        except HarnessError:
+            coq_in = None
+    st = MemoryStore()
+    doc = None
+    try:
+        md = GeffMetadata(**mj.to_py(c["kw"]))
+        write_arrays(st, nids, nprops, eids, eprops, md, zarr_format=c["fmt"], structure_validation=c["validate"])
+        obs["res"] = ["ok"]
+    except Exception as e:
+        obs["res"] = ["err", exn_name(e), str(e)[:160]]
+    if obs["res"][0] == "ok":
+        view = stored_view(st)
+        doc = view["md"]
+        obs["mdiff"] = metadata_diff(view, caller_of(c))
+        obs["doc"] = None
+        try:
+            obs["doc"] = mj.enc(doc)
+        except HarnessError:
+            pass
+        try:  # GeffMetadata.read of the store just written: the same document again
+            back = json.loads(json.dumps(GeffMetadata.read(st).model_dump(mode="json")))
+            obs["readback"] = (mj.enc(back) == obs["doc"]) if obs["doc"] is not None else None
+        except HarnessError:
+            obs["readback"] = None
+        except Exception as e:
+            obs["readback"] = f"{type(e).__name__}: {str(e)[:100]}"
+    if coq_in is not None:
+        if obs["res"][0] != "ok":
+            obs["coq"] = f"({coq_in}, OFull (Err {obs['res'][1]}))"
+        elif obs["doc"] is not None:
+            obs["coq"] = f"({coq_in}, OFull (Ok {mj.to_jv(obs['doc'])}))"
+    return obs
+
+
+def oracle_full(c, o):
+    from harness import c07 as mj
+
+    has_nan = nan_coordinate(c)
+    if o["res"][0] != "ok":
+        if c["stale"] and c["validate"]:
+            return None  # structural validation rejects a stale entry: no successful write, nothing to claim
+        if c.get("special") == "masked" and c["validate"]:
+            return None  # ... and an axis property with a missing mask
+        return Failure(c, c01.strip(o), f"write raised {o['res'][1]}: {o['res'][2]}", {"why": "write-raises", "exc": o["res"][1]})
+    doc = mj.to_py(o["doc"]) if o.get("doc") is not None else None
+    problems = []
+    if o.get("mdiff"):
+        problems.append(o["mdiff"])
+    if doc is not None:
+        want = c["kw"].get("geff_version")
+        if want is not None and doc.get("geff_version") != want:
+            problems.append(f"geff_version = {doc.get('geff_version')!r}, caller gave {want!r}")
+        for ax in doc.get("axes") or []:
+            lo, hi = ax.get("min"), ax.get("max")
+            if (lo is None) != (hi is None) or (lo is not None and not (lo <= hi)):
+                problems.append(f"invariant: axis {ax['name']!r} has min {lo}, max {hi}: min <= max does not hold")
+    if o.get("readback") not in (None, True):
+        problems.append(f"readback: GeffMetadata.read of the written store does not return the stored document ({o['readback']})")
+    if not problems:
+        return None
+    if has_nan:
+        tags = {"why": "metadata-full", "nan": True}
+    elif o.get("mdiff"):
+        tags = {"why": "metadata", "stale": bool(c.get("stale")), "validate": bool(c["validate"]), "what": o["mdiff"].split(" ")[0][:24]}
+    else:
+        tags = {"why": "metadata-full", "nan": False, "what": problems[0].split(" ")[0][:24]}
+    return Failure(c, c01.strip(o), "stored metadata does not describe the stored data: " + "; ".join(problems[:3]), tags)
+
+
 def run_impl(c):
     from zarr.storage import MemoryStore
 
+    if c["entry"] == "full":
+        return run_full(c)
     if c["entry"] == "write_arrays":
         # same execution as C01 (gives the Coq term); the stored view is taken from a second, identical write
         obs = c01.run_impl(c)
@@ -289,10 +537,15 @@ def run_backend(c):
 
 
 def coq_case(c, o):
-    return o.get("coq")
+    t = o.get("coq")
+    if t is None or c["entry"] == "full":
+        return t
+    return f"(old_case {t})"  # Corr/C10.v: the C01-style observation inside C10's own input / obs types
 
 
 def oracle(c, o):
+    if c["entry"] == "full":
+        return oracle_full(c, o)
     if o["res"][0] != "ok":
         if c["entry"] == "write_dicts" and not c["nodes"]:
             return None
@@ -306,12 +559,19 @@ def oracle(c, o):
 
 
 def nontrivial(c, o):
+    if c["entry"] == "full":
+        return bool(c["nprops"] or c["eprops"])
     if c["entry"] in ("write_dicts", "nx", "rx"):
         return bool(c["nodes"])
     return bool(c["nprops"] or c["eprops"])
 
 
 def describe(c, o):
+    if c["entry"] == "full":
+        kw = c["kw"]
+        return (f"full:v{c['fmt']}:N={c['nids']['shape'][0]}:axes={len(kw.get('axes') or [])}:entries={len(kw['node_props_metadata'])}+"
+                f"{len(kw['edge_props_metadata'])}:ver={'geff_version' in kw}:special={c.get('special')}:stale={c['stale']}:val={c['validate']}:"
+                f"{o['res'][0] if o['res'][0] == 'ok' else o['res'][1]}")
     if c["entry"] in ("nx", "rx"):
         ov = c["ov"]
         return (f"{c['entry']}:v{c['fmt']}:axes={len(ov['axis_names'])}:" + "".join(k[5] if ov[k] is not None else "-" for k in
